@@ -189,7 +189,12 @@ Definition hr_ok (i : hr_in) (o : hr_out) : bool :=
       | Some c =>
           Z.eqb (CommitSM.o_type o) CommitSM.T_selected &&
           rng_ok (CommitSM.c_on c, CommitSM.c_off c, n) (CommitSM.o_ranges o, CommitSM.o_off o) &&
-          match CommitSM.o_roots o with [] => true | _ => false end
+          match CommitSM.o_roots o with [] => true | _ => false end &&
+          (* judge soundness (Proofs/JudgeSoundC02P.v): C02_hist_selection_exact also says that a fresh selection
+             resets the attempt counter and carries no signatures; the clause was not evaluated before, so an outcome
+             with the right intervals but a stale counter / stale signatures passed (hr_ok_before_unsound) *)
+          N.eqb (CommitSM.o_attempts o) 0 &&
+          match CommitSM.o_sigs o with [] => true | _ => false end
       end
   | CommitSM.Building =>
       if retry then C03_check.outcome_eqb o prev
